@@ -16,13 +16,13 @@ CHECKS.update({
    technique="three-way differential: compiled interpreter = Lean model of LargeMicroStep = Lean transcription of W3C Appendix D; Lean theorems about the model for one clause of the algorithm (pre-emption) and for the numbering the engines rely on",
    text="Every input must satisfy I = Model.Large on the full monitor alphabet and abs(I) = Spec.W3C.run (Appendix D); inputs in the two recorded finding classes must follow the specification with exactly the documented quirk. Exhaustive small charts, seeded random charts, corpus of witnesses of repaired defects. Proved (Lean, every well-formed document, any size): the set of transitions LargeMicroStep selects is conflict-free in Appendix D's sense (selection_conflict_free_w3c_of_document), the engine's transition domain is Appendix D's, descendants are document-order intervals (desc_interval, intervalOK_flatten). The refinement of the whole step (Model.Large = Spec.W3C) is not proved, hence 'exploration' and not 'proof'.",
    design_ref="6 / C01", note=ENGINE_NOTE),
- "C02": dict(category="exploration",
-   technique="Spec.Legal.legal (Lean, decidable) evaluated on every configuration both compiled engines report; Lean invariant for two of the six clauses of legality",
-   text="Every configuration reported after every step() of both engines is checked against Recommendation 3.11 by the Lean predicate; root entered once and never exited; one recorded finding class (nested history). Proved for every chart and every operation sequence on both engine models: the configuration is strictly ascending, duplicate-free and free of pseudo-states (configuration_is_a_set_of_real_states_partial); the four structural clauses are exploration only.",
+ "C02": dict(category="proof",
+   technique="Lean theorem: the active configuration of both engine models is legal (Spec.Legal.legal, all six clauses) after every sequence of API operations, for charts without <history>/<initial> elements that meet decidable chart conditions (evaluated on every generated chart); invariants by induction over operations (parent closure, downward completeness via the entry loops' visiting order, at most one child via conflict-free selection); Spec.Legal.legal evaluated on every configuration both compiled engines report",
+   text="configuration_is_legal_partial: for every coherent pre-order chart without history and initial elements meeting EntryOk/DownOk/XorOk/SelPlain/SelPlainF (decidable; Coherent, IntervalOK and EntryOk are theorems for well-formed documents), both engines, every operation sequence: after the first step the configuration holds the root, is duplicate-free, consists of proper states, has every state's parent, exactly one child of every active compound state, all children of every active parallel and an atomic state. Without the restriction to history-free charts the statement is false of the code (recorded finding hist-shared: nested histories); charts with <initial> elements have clauses 1-4 and the 'at least' halves of 5-6 proved (parents_stay_active_partial, active_states_are_complete_partial), 'at most one child' by exploration. Every configuration reported after every step() of both compiled engines is checked against Recommendation 3.11 by the same Lean predicate; the models are tied to the engines by trace equality (C01/C03/C13).",
    design_ref="6 / C02", note=ENGINE_NOTE),
  "C03": dict(category="exploration",
    technique="direct differential of the two compiled engines on the full observation alphabet + each against its Lean model; Lean theorems that hold of both engine models alike",
-   text="Large and Fast engines run the same charts/histories; traces (monitor notifications, logs, step() results, configurations) must be identical, and each equals its Lean model. Proved of both models alike: conflict-free selection (in Appendix D's terms on well-formed documents), the configuration invariant, well-nested notifications (C13); trace equality itself is exploration.",
+   text="Large and Fast engines run the same charts/histories; traces (monitor notifications, logs, step() results, configurations) must be identical, and each equals its Lean model. Proved of both models alike: conflict-free selection (in Appendix D's terms on well-formed documents), legal configurations on charts without history/initial elements (C02's theorem, stated for either engine), well-nested notifications (C13); trace equality itself is exploration; one recorded finding (hist-shared: with nested histories the engines differ).",
    design_ref="6 / C03", note=ENGINE_NOTE),
  "C13": dict(category="proof",
    technique="Lean theorem (invariant by induction over API operations, structural induction over executable content) that the notification stream of both engine models is accepted by the nesting automaton Spec.Nesting; the models are tied to the compiled engines by trace equality and the same automaton (compiled from Lean) is run over every real trace",
